@@ -1,0 +1,44 @@
+//go:build verif
+
+// Contracts for the verif build tag (comment-only; see /verif/DESIGN.md §4).
+package test
+
+// ---------------------------------------------------------------------------
+// The two shipped proto-schema convertors meet the convertor interface contract (C19): none for a template
+// message, one flow message per record in record order, carrying the message header fields.
+// ---------------------------------------------------------------------------
+
+//@ // frame only: the field-by-field mapping of record elements to FlowType1 fields is NOT specified; the header fields are not touched
+//@ func addAllFieldsToFlowType1(flowMsg, record) ()
+//@   requires nn: flowMsg != nil
+//@   modifies flowMsg.TimeFlowStartInSecs, flowMsg.TimeFlowEndInSecs, flowMsg.TimeFlowStartInMilliSecs, flowMsg.TimeFlowEndInMilliSecs, flowMsg.SrcIP, flowMsg.DstIP, flowMsg.SrcPort, flowMsg.DstPort, flowMsg.Proto, flowMsg.PacketsTotal, flowMsg.BytesTotal, flowMsg.PacketsDelta, flowMsg.BytesDelta, flowMsg.ReversePacketsTotal, flowMsg.ReverseBytesTotal, flowMsg.ReversePacketsDelta, flowMsg.ReverseBytesDelta, flowMsg.SrcPodName, flowMsg.SrcPodNamespace, flowMsg.SrcNodeName, flowMsg.DstPodName, flowMsg.DstPodNamespace, flowMsg.DstNodeName, flowMsg.DstClusterIP, flowMsg.DstServicePort, flowMsg.DstServicePortName, flowMsg.IngressPolicyName, flowMsg.IngressPolicyNamespace, flowMsg.EgressPolicyName, flowMsg.EgressPolicyNamespace
+//@   trusted
+
+//@ func (c *convertRecordToFlowType1) ConvertIPFIXMsgToFlowMsgs(msg) (r)
+//@   requires msg: msg != nil && is(msg.set, *entities.set) && msg.set.(*entities.set) != nil
+//@   ensures  tpl:  msg.set.(*entities.set).setType == Template ==> len(r) == 0
+//@   ensures  data: msg.set.(*entities.set).setType != Template ==> len(r) == len(msg.set.(*entities.set).records)
+//@   ensures  nn:   forall i in [0, len(r)): !isnil(r[i])
+//@   replay kafka
+//@   // every flow message is built with the message's export time, sequence number, observation domain and exporter address
+//@   callpre (*FlowType1).ProtoReflect hdr: x.TimeReceived == msg.exportTime && x.SequenceNumber == msg.seqNumber && x.ObsDomainID == msg.obsDomainID && x.ExportAddress == msg.exportAddress
+//@   loop 1 invariant cnt: 0 <= $i && $i <= len(records) && len(flowMsgs) == len(records) && fresh(flowMsgs) && records == msg.set.(*entities.set).records
+//@   loop 1 invariant nn:  forall i in [0, $i): !isnil(flowMsgs[i])
+
+//@ // frame only: the field-by-field mapping of record elements to FlowType2 fields is NOT specified; the header fields are not touched
+//@ func addAllFieldsToFlowType2(flowMsg, record) ()
+//@   requires nn: flowMsg != nil
+//@   modifies flowMsg.TimeFlowStartInSecs, flowMsg.TimeFlowEndInSecs, flowMsg.TimeFlowStartInMilliSecs, flowMsg.TimeFlowEndInMilliSecs, flowMsg.FlowEndReason, flowMsg.TcpState, flowMsg.SrcIP, flowMsg.DstIP, flowMsg.SrcPort, flowMsg.DstPort, flowMsg.Proto, flowMsg.PacketsTotal, flowMsg.BytesTotal, flowMsg.PacketsDelta, flowMsg.BytesDelta, flowMsg.ReversePacketsTotal, flowMsg.ReverseBytesTotal, flowMsg.ReversePacketsDelta, flowMsg.ReverseBytesDelta, flowMsg.SrcPodName, flowMsg.SrcPodNamespace, flowMsg.SrcNodeName, flowMsg.DstPodName, flowMsg.DstPodNamespace, flowMsg.DstNodeName, flowMsg.DstClusterIP, flowMsg.DstServicePort, flowMsg.DstServicePortName, flowMsg.IngressPolicyName, flowMsg.IngressPolicyNamespace, flowMsg.EgressPolicyName, flowMsg.EgressPolicyNamespace
+//@   trusted
+
+//@ func (c *convertRecordToFlowType2) ConvertIPFIXMsgToFlowMsgs(msg) (r)
+//@   requires msg: msg != nil && is(msg.set, *entities.set) && msg.set.(*entities.set) != nil
+//@   ensures  tpl:  msg.set.(*entities.set).setType == Template ==> len(r) == 0
+//@   ensures  data: msg.set.(*entities.set).setType != Template ==> len(r) == len(msg.set.(*entities.set).records)
+//@   ensures  nn:   forall i in [0, len(r)): !isnil(r[i])
+//@   replay kafka
+//@   // every flow message is built with the message's export time, sequence number, observation domain and exporter address
+//@   callpre (*FlowType2).ProtoReflect hdr: x.TimeReceived == msg.exportTime && x.SequenceNumber == msg.seqNumber && x.ObsDomainID == msg.obsDomainID && x.ExportAddress == msg.exportAddress
+//@   loop 1 invariant cnt: 0 <= $i && $i <= len(records) && len(flowMsgs) == len(records) && fresh(flowMsgs) && records == msg.set.(*entities.set).records
+//@   loop 1 invariant nn:  forall i in [0, $i): !isnil(flowMsgs[i])
+
